@@ -128,12 +128,19 @@ def h_lexicon_tag(k1: int, k2: int, k3: int, has_url: bool, has_meta: bool) -> b
 MAXE = 3 if rt.THOROUGH else 2
 
 
-def h_escape_attr(s: str) -> bool:
+QCH = ['a', '"', "'", '&', '<', '>', '\n', '\t', '\r', ' ', '', 'é']
+
+
+def h_escape_attr(s: str, k0: int, k1: int, k2: int) -> bool:
     """
-    pre: len(s) <= MAXE - (rt.part(2)[0] if not rt.THOROUGH else 0)
+    pre: len(s) <= MAXE and 0 <= k0 < 12 and 0 <= k1 < 12 and 0 <= k2 < 12
+    pre: (rt.part(2)[0] == 0 and k0 == 0 and k1 == 0 and k2 == 0) or (rt.part(2)[0] == 1 and len(s) == 0)
     post: _
     """
     which = rt.part(2)[0]
+    if which == 1:
+        # quoteattr formats with '%s' (which forces a concrete string): characters by index
+        s = _pick(QCH, k0) + _pick(QCH, k1) + _pick(QCH, k2)
     if which == 0:
         esc = ET._escape_attrib(s)
     else:
@@ -211,7 +218,7 @@ OBLIGATIONS = [
        thorough=dict(timeout=600), canary=None,
        functions=['xml.etree.ElementTree._escape_attrib', 'xml.sax.saxutils.quoteattr'],
        stubs=['reference un-escaper incl. attribute-value normalisation'],
-       symbolic='the attribute value: any string of length <= 2 (quoteattr in the quick tier: 1; thorough: 3) over all code points',
+       symbolic='the attribute value: any string of length <= 2 (thorough: 3) over all code points for the ElementTree escaper; 0-3 characters from ' + repr(QCH) + ' for quoteattr',
        bounds='unescape(escape(s)) == s, no raw < or delimiter inside'),
     Ob('escape-text', 'h_escape_text', quick=dict(timeout=200), thorough=dict(timeout=600),
        canary=None, functions=['xml.etree.ElementTree._escape_cdata'],
